@@ -60,7 +60,7 @@ CHECKS = {
     'C10': dict(
         category='exploration', design_ref='DESIGN.md section 3, C10',
         technique='bounded-exhaustive enumeration of input forms (exogenous specification x length x initial condition position/value x horizon source x time variable x reduction) on the real solver and Model; exact == oracle',
-        text='Every case of the input-form product through EquationSolver and Model (incl. one solver re-used for two blocks): lengths horizon+1, k axis, exogenous series equal to the supplied prefix, k=0 equal to the stated initial condition for 7 kinds of variable (9 significant digits through Model, initial gold stock), lag identity (also for sources named like the lag spelling), t == k, exogenous specifications as strings and as Python objects, a path specified twice, a horizon set on the model's own solver, '
+        text='Every case of the input-form product through EquationSolver and Model (incl. one solver re-used for two blocks): lengths horizon+1, k axis, exogenous series equal to the supplied prefix, k=0 equal to the stated initial condition for 7 kinds of variable (9 significant digits through Model, initial gold stock), lag identity (also for sources named like the lag spelling), t == k, exogenous specifications as strings and as Python objects, a path specified twice, a horizon set on the solver object of the model, '
              'short/unevaluable input rejected with no period produced.',
         note='An int scalar may be rejected or broadcast. Rejection = any exception.'),
     'C11': dict(
